@@ -476,6 +476,7 @@ func main() {
 	}
 
 	h.selfTest()
+	h.leafSweep()
 	h.exhaustive()
 
 	// hx.NewRand(k+1) is hx.NewRand(k) advanced by one draw; fork once so that different seeds give
